@@ -66,6 +66,10 @@ def dump_mir(profile, repo=None):
     cdir = os.path.join(CACHE, "mir", th)
     path = os.path.join(cdir, profile + ".txt")
     if os.path.exists(path) and os.path.getsize(path) > 1000:
+        try:
+            os.utime(cdir, None)              # most recently used, for the pruning below
+        except OSError:
+            pass
         return open(path).read(), th, 0.0
     os.makedirs(cdir, exist_ok=True)
     scratch = make_scratch(repo)
@@ -80,14 +84,15 @@ def dump_mir(profile, repo=None):
         if p.returncode != 0 or len(p.stdout) < 1000:
             sys.stderr.write(p.stderr[-4000:])
             raise RuntimeError("MIR dump failed for profile %s (rc=%d)" % (profile, p.returncode))
+        os.makedirs(cdir, exist_ok=True)      # (a concurrent run on other trees may have pruned it meanwhile)
         tmp = path + ".tmp%d" % os.getpid()
         with open(tmp, "w") as f:
             f.write(p.stdout)
         os.replace(tmp, path)
-        # keep the cache small: only the 6 most recent trees
+        # keep the cache small: only the 40 most recent trees
         try:
             ds = sorted((os.path.getmtime(os.path.join(CACHE, "mir", x)), x) for x in os.listdir(os.path.join(CACHE, "mir")))
-            for _, x in ds[:-6]:
+            for _, x in ds[:-40]:
                 shutil.rmtree(os.path.join(CACHE, "mir", x), ignore_errors=True)
         except OSError:
             pass
@@ -118,6 +123,7 @@ def dump_expanded(repo=None):
         if p.returncode != 0 or len(p.stdout) < 1000:
             sys.stderr.write(p.stderr[-4000:])
             raise RuntimeError("macro expansion failed (rc=%d)" % p.returncode)
+        os.makedirs(cdir, exist_ok=True)
         tmp = path + ".tmp%d" % os.getpid()
         with open(tmp, "w") as f:
             f.write(p.stdout)
